@@ -157,6 +157,16 @@ def rule_mirror(check):
             check.expect(same, R, R + "/literal-inline", hir.loc(n), "literal operand pushed as is", "the literal arm pushes %s" % sorted(origin_str(x) for x in o))
             continue
         kept = gate.has_eq_gate(atoms, "ident_mode", "IdentMode::Replace", False) or gate.has_eq_gate(atoms, "ident_mode", "IdentMode::Keep", True)
+        if not kept:
+            # the same test as a match arm on the mode
+            from . import boolform as BF
+            try:
+                mvs = [v_["name"] for v_ in prog.adt("operand_handler::IdentMode")["variants"]]
+            except AnchorMissing:
+                mvs = ["Replace", "Keep"]
+            mpre = "is:transform::operand_handler::IdentMode::"
+            prem_ = BF.from_conds(f, [c_ for c_ in f.conds_at(n) if c_["t"] != "closure"], enum_atomize, prog)
+            kept = BF.entails(prem_, BF.atom(mpre + "Keep"), exhaustive={mpre: mvs})
         check.expect(same and kept, R, R + "/kept-ident", hir.loc(n), "kept identifier pushed as is (mode != Replace)", "the Keep branch pushes %s" % sorted(origin_str(x) for x in o))
 
 
@@ -675,6 +685,67 @@ def rule_call_signature(check):
     check.expect(seq == ["get_ident_used_in_assignation", "replace_call_callee_and_args"], R, R + "/spread-this", hir.loc(s.rec), "spread this-argument: (callee, ...args)", "spread variant fills arguments as %s" % seq)
 
 
+def enum_atomize(fn, e):
+    """`x == Enum::V` / `x != Enum::V` (a unit variant on one side) as the atom `is:<variant path>` - the same
+    atom a `match x { Enum::V => .. }` arm gives; `<place>.spread.is_some()` as `spread-flag`"""
+    from . import boolform as BF
+
+    e = hir.peel(e)
+    if e.get("k") == "Binary" and e.get("op") in ("Eq", "Ne"):
+        sides = [hir.peel_transparent(e["l"]), hir.peel_transparent(e["r"])]
+        cps = [(s_.get("res") or {}).get("ctor_path") for s_ in sides if s_.get("k") == "Path" and (s_.get("res") or {}).get("ctor_path")]
+        if len(cps) == 1:
+            a = BF.atom("is:" + cps[0])
+            return a if e["op"] == "Eq" else BF.neg(a)
+    if hir.is_call(e) and (hir.callee_name(e) or e.get("method")) in ("is_some", "is_none") and hir.call_args(e) and (hir.place(hir.call_args(e)[0]) or "").endswith(".spread"):
+        a = BF.atom("spread-flag")
+        return a if (hir.callee_name(e) or e.get("method")) == "is_some" else BF.neg(a)
+    if (hir.place(e) or "").endswith(".spread") and "Option" in (e.get("ty") or ""):
+        return BF.atom("spread-flag")  # (as an Option-valued scrutinee: Some-ness)
+    return None
+
+
+def value_cases(prog, fn, e, atomize=enum_atomize):
+    """[(formula, value expression)] for an expression written as if / else-if / match (or a local initialised
+    with one): under which condition it takes which value"""
+    from . import boolform as BF
+
+    e0 = hir.peel(e)
+    for _ in range(4):
+        # Box::new(x) / x.into(): the value is x's
+        if hir.is_call(e0) and (hir.callee_name(e0) or e0.get("method")) in ("new", "into", "from") and len(hir.call_args(e0)) == 1 and ("boxed::Box" in ((e0.get("callee") or {}).get("path") or "") or (e0.get("callee") or {}).get("trait", "").startswith("std::convert::")):
+            e0 = hir.peel(hir.call_args(e0)[0])
+            continue
+        l = hir.local_of(e0)
+        b = fn.bindings().get(l[0]) if l else None
+        if b and b["origin"][0] == "let" and b["origin"][1] is not None and not b["origin"][2] and not fn.assignments_to(l[0]):
+            e0 = hir.peel(b["origin"][1])
+        else:
+            break
+    out = []
+    for conds, v in hir.decision_paths(e0):
+        cs = []
+        for ce, cv in conds:
+            if ce.get("k") == "PatCond":
+                cs.append(BF.from_cond(fn, {"t": "pat", "scrut": ce["scrut"], "pat": ce["pat"], "v": cv}, atomize, prog))
+            elif ce.get("k") == "ArmNot":
+                cs.append(BF.from_cond(fn, {"t": "arm_not", "scrut": ce["scrut"], "pat": ce["pat"], "guard": ce.get("guard")}, atomize, prog) if cv else BF.TRUE)
+            else:
+                f_ = BF.from_expr(fn, ce, atomize, prog)
+                cs.append(f_ if cv else BF.neg(f_))
+        out.append((BF.conj(cs), v))
+    return out
+
+
+def _kind_exhaustive(prog):
+    try:
+        vs = [v["name"] for v in prog.adt("ident_provider::IdentKind")["variants"]]
+    except AnchorMissing:
+        vs = ["Expr", "Spread"]
+    pre = "is:visitor::ident_provider::IdentKind::"
+    return pre, {pre: vs}
+
+
 def rule_spread_once(check):
     R = "SPREAD-ONCE"
     check.rule(R, "a spread operand is evaluated once: its temporary is assigned `[...operand]` (one spread element) and both the rewritten call and the hook spread that temporary; the kind is chosen from operand.spread.is_some()")
@@ -683,9 +754,13 @@ def rule_spread_once(check):
     f = prog.fn("IdentProvider::create_assign_right_operand_expression")
     arrs = [n for n in hir.walk(f.body) if n.get("k") == "Struct" and (n["res"].get("path") or "").endswith("ArrayLit")]
     check.floor(R, "ArrayLit constructions", len(arrs), 1)
+    from . import boolform as BF
+    KPRE, KEXH = _kind_exhaustive(prog)
+    KSPREAD = BF.atom(KPRE + "Spread")
     for n in arrs:
         atoms = gate.atoms_at(f, n)
-        gated = gate.has_eq_gate(atoms, "ident_kind", "IdentKind::Spread", True)
+        prem_k = BF.from_conds(f, [c_ for c_ in f.conds_at(n) if c_["t"] != "closure"], enum_atomize, prog)
+        gated = gate.has_eq_gate(atoms, "ident_kind", "IdentKind::Spread", True) or BF.entails(prem_k, KSPREAD, exhaustive=KEXH)
         elems = [x for x in hir.walk(n) if x.get("k") == "Struct" and (x["res"].get("path") or "").endswith("ExprOrSpread")]
         one = len(elems) == 1
         okf = False
@@ -697,6 +772,8 @@ def rule_spread_once(check):
         # ... for every spread operand: nothing but the kind decides (a call result, a `new` or an array
         # spread twice is expanded twice: a one-shot iterator yields nothing the second time)
         extra = [a for a in atoms if a[0] not in ("closure",) and not (a[0] == "eq" and any(isinstance(x, str) and x.endswith("IdentKind::Spread") for x in a[1:3]))]
+        if extra and all(BF.entails([KSPREAD], p_, exhaustive=KEXH) for p_ in prem_k):
+            extra = []  # the same gate written as a match arm: nothing but the kind decides
         check.expect(not extra, R, R + "/array-wrap-every-spread", hir.loc(n), "every Spread operand gets the copy", "the `[...operand]` copy of a spread operand additionally depends on %s: an operand that is not copied is spread twice - in the call and in the hook's argument list" % "; ".join(re.sub(r"#\d+", "", (hir.describe(a[-1]) if isinstance(a[-1], dict) and "k" in a[-1] else str(a[:4])))[:80] for a in extra))
     g = prog.fn("IdentProvider::get_expr_or_spread")
     lits = [n for n in hir.walk(g.body) if n.get("k") == "Struct" and (n["res"].get("path") or "").endswith("ExprOrSpread")]
@@ -717,6 +794,17 @@ def rule_spread_once(check):
             then_some = any(x.get("k") == "Call" and (hir.peel(x["f"]).get("res", {}).get("ctor_path") or "").split("::")[-1] == "Some" for x in hir.walk(th))
             else_none = any(x.get("k") == "Path" and (x["res"].get("ctor_path") or "").split("::")[-1] == "None" for x in hir.walk(el))
             ok = cond_ok and then_some and else_none
+        if not ok:
+            # any other way of writing "Some(..) exactly for the Spread kind" (a match on the kind, ..)
+            cases = value_cases(prog, g, sp)
+            okc = bool(cases)
+            for fml, v in cases:
+                v0 = hir.peel(v) if v is not None else {}
+                is_some_v = v0.get("k") == "Call" and (hir.peel(v0["f"]).get("res", {}).get("ctor_path") or "").split("::")[-1] == "Some"
+                is_none_v = v0.get("k") == "Path" and ((v0.get("res") or {}).get("ctor_path") or "").split("::")[-1] == "None"
+                goal = KSPREAD if is_some_v else (BF.neg(KSPREAD) if is_none_v else None)
+                okc = okc and goal is not None and BF.entails([fml], goal, exhaustive=KEXH) and BF.entails([goal], fml, exhaustive=KEXH)
+            ok = okc
         check.expect(ok, R, R + "/spread-iff-kind", hir.loc(n), "argument is spread iff kind == Spread", "get_expr_or_spread does not spread exactly the Spread kind")
     # the kind travels with the operand: inside the operand handler every callee that takes an
     # IdentKind receives the caller's own IdentKind parameter (never a constant, never dropped)
@@ -760,6 +848,17 @@ def rule_spread_once(check):
             th = _ctor_name(hir.peel(n["then"]))
             el = _ctor_name(hir.peel(n["else"]))
             ok = (th or "").endswith("IdentKind::Spread") and (el or "").endswith("IdentKind::Expr")
+    if not ok:
+        # the same decision as a match on `operand.spread`, or any other if / match form
+        SF = BF.atom("spread-flag")
+        for n in [x for x in hir.walk(h.body) if x.get("k") in ("If", "Match") and (x.get("ty") or "").endswith("IdentKind")]:
+            cases = value_cases(prog, h, n)
+            okc = bool(cases)
+            for fml, v in cases:
+                cn = (_ctor_name(hir.peel(v)) or "") if v is not None else ""
+                goal = SF if cn.endswith("IdentKind::Spread") else (BF.neg(SF) if cn.endswith("IdentKind::Expr") else None)
+                okc = okc and goal is not None and BF.entails([fml], goal) and BF.entails([goal], fml)
+            ok = ok or okc
     check.expect(ok, R, R + "/kind-from-operand", hir.loc(h.rec), "kind = Spread iff operand.spread.is_some()", "the ident kind is not derived from operand.spread.is_some()")
     # IdentKind::Spread is produced only there (and consumed by comparison in the assignment builder)
     sp_sites = _enum_value_sites(prog, "IdentKind::Spread")
@@ -894,7 +993,11 @@ def rule_hoist_paren(check):
             if root[0] == "ctor":
                 node = prog.by_def[root[2]].by_id(root[3])
                 atoms = gate.atoms_at(f, node)
-                kinds.append((root[1].split("::")[-1].replace("Lit", "").replace("Expr", "") or root[1].split("::")[-1], "seq" if gate.has_call_gate(atoms, "is_seq", True) else ("spread" if gate.has_eq_gate(atoms, "ident_kind", "IdentKind::Spread", True) else "?")))
+                from . import boolform as BF
+                KPRE, KEXH = _kind_exhaustive(prog)
+                prem_ = BF.from_conds(f, [c_ for c_ in f.conds_at(node) if c_["t"] != "closure"], enum_atomize, prog)
+                is_spread_ = gate.has_eq_gate(atoms, "ident_kind", "IdentKind::Spread", True) or BF.entails(prem_, BF.atom(KPRE + "Spread"), exhaustive=KEXH)
+                kinds.append((root[1].split("::")[-1].replace("Lit", "").replace("Expr", "") or root[1].split("::")[-1], "seq" if gate.has_call_gate(atoms, "is_seq", True) else ("spread" if is_spread_ else "?")))
             elif root[0] == "param" and root[2] == 1:
                 # bare operand: must be on the !is_seq edge
                 clones = [x for x in hir.walk(f.body) if hir.is_call(x) and (hir.callee_name(x) or x.get("method")) == "clone" and hir.local_of(hir.call_args(x)[0]) and f.bindings()[hir.local_of(hir.call_args(x)[0])[0]]["origin"][:2] == ("param", 1)]
@@ -905,6 +1008,37 @@ def rule_hoist_paren(check):
                         atoms = gate.atoms_at(f, c)
                         kinds.append(("bare", "not-seq" if gate.has_call_gate(atoms, "is_seq", False) else "unguarded"))
     want = {("Array", "spread"), ("Paren", "seq"), ("bare", "not-seq")}
+    if set(kinds) != want:
+        # the same three shapes decided in another way (a match on the kind with a guard, early returns ..):
+        # read the value of the function case by case
+        from . import boolform as BF
+        KPRE, KEXH = _kind_exhaustive(prog)
+        SEQ = BF.atom("operand-is-a-sequence")
+
+        def atomize_r(fn_, e):
+            e1 = hir.peel(e)
+            if hir.is_call(e1) and (hir.callee_name(e1) or e1.get("method")) == "is_seq":
+                return SEQ
+            return enum_atomize(fn_, e)
+
+        kinds2 = []
+        for r in rets:
+            for fml, v in value_cases(prog, f, r, atomize_r):
+                if v is None:
+                    kinds2.append(("?", "?"))
+                    continue
+                os_ = pv.origins(f, v)
+                for root, proj in os_:
+                    if root[0] == "ctor":
+                        shape = root[1].split("::")[-1].replace("Lit", "").replace("Expr", "") or root[1].split("::")[-1]
+                        how = "spread" if BF.entails([fml], BF.atom(KPRE + "Spread"), exhaustive=KEXH) else ("seq" if BF.entails([fml], SEQ, exhaustive=KEXH) else "?")
+                        kinds2.append((shape, how))
+                    elif root[0] == "param" and root[2] == 1:
+                        kinds2.append(("bare", "not-seq" if BF.entails([fml], BF.neg(SEQ), exhaustive=KEXH) else "unguarded"))
+                    else:
+                        kinds2.append((origin_str((root, proj)), "?"))
+        if set(kinds2) == want:
+            kinds = kinds2
     check.expect(set(kinds) == want, R, R + "/assign-right", hir.loc(f.rec), "assignment right side: [...x] | (a, b) parenthesised | bare non-sequence", "assignment right side shapes are %s: a comma expression would be hoisted as `t = a, b`" % sorted(set(kinds)))
     # parentheses of the input are never stripped: a node taken out of ParenExpr.expr (category
     # Expression) would land in the tighter slot its parent occupied and swc prints the tree as given
@@ -2005,6 +2139,27 @@ def rule_input_untouched(check):
             ty = hir.peel(n["recv"]).get("ty") or ""
             if "swc_ecma_ast" not in ty and "swc_ecma_ast" not in (b.get("ty") or ""):
                 continue
+            if n["method"] == "take" and not hir.call_args(n)[1:]:
+                # in-place rewrite: `let Variant(inner) = &mut *node.slot { .. inner.take() .. ; *node.slot = <new value
+                # built around what was taken> }` - the slot the part was taken from is overwritten on the same path
+                l_ = hir.local_of(hir.peel_transparent(n["recv"]))
+                b_ = f.bindings().get(l_[0]) if l_ else None
+                slot = None
+                if b_ is not None and b_["origin"][0] in ("match", "let") and b_["origin"][1] is not None:
+                    slot = hir.place(hir.peel_transparent(b_["origin"][1]))
+                slot = slot or hir.place(hir.peel_transparent(n["recv"]))
+                order_ = {x["id"]: i_ for i_, x in enumerate(f.nodes())}
+                tk_conds = [(c_["t"], str(c_.get("v")), hir.cond_str(c_)) for c_ in f.conds_at(n) if c_["t"] != "closure"]
+                refilled = False
+                for a_ in f.nodes():
+                    if a_.get("k") == "Assign" and order_.get(a_["id"], -1) > order_.get(n["id"], 1 << 30):
+                        lp = hir.place(hir.peel_transparent(a_["l"])) or ""
+                        ac = [(c_["t"], str(c_.get("v")), hir.cond_str(c_)) for c_ in f.conds_at(a_) if c_["t"] != "closure"]
+                        if slot and lp and (slot == lp or slot.startswith(lp + ".")) and all(c_ in tk_conds for c_ in ac):
+                            refilled = True
+                if refilled and not [x for x in f.nodes() if hir.is_call(x) and hir.callee_name(x) == "not_modified"]:
+                    check.ok(R, "%s/%s/take-refill" % (R, f.name), hir.loc(n), "the part is taken out and the slot it came from is overwritten with the value built around it, on the same path (an in-place rewrite that cannot decline)")
+                    continue
             if n["method"] == "drain":
                 # `x.elems = x.elems.drain(..).map(f).collect()`: every element is put back, in order
                 chain, cur = [], n
